@@ -1,6 +1,8 @@
 (* fits_driver.ml — runs the extracted FITS model as an independent reader / writer.
      fits_driver decode <list>   lines "id fitsfile outdump": bytes -> Fitsmodel.of_bytes (and read_bytes) -> table dump
      fits_driver encode <list>   lines "id tablefile outfits": table -> Fitsmodel.to_bytes -> file
+     fits_driver reserved <list> lines "id hexkey -": Fitsmodel.reserved / aux_key_ok
+     fits_driver offer <list>    lines "id hexkey hexvalue": Fitsmodel.write_key_offer, aux_entry_ok, aux_reloaded
    Table text format: tools/props/C06.py. *)
 open Fitsmodel
 
@@ -91,6 +93,16 @@ let () =
              FitsWf.aux_key_ok on one key: src = the key in hex ("-" = the empty key) *)
           let k = if src = "-" then [] else unhex src in
           Printf.printf "%s reserved=%d aux_key_ok=%d ok\n%!" id (if reserved k then 1 else 0) (if aux_key_ok k then 1 else 0)
+        end else if mode = "offer" then begin
+          (* one (key, value) offered to write_key: src = key, dst = value, both in hex ("-" = empty).
+             offer    = FitsModel.write_key_offer (reserved name / key longer than 66 / encoded value length, every quote counted
+                        twice, above maxdatalen / stored) — tied to C16's AuxModel.accepts by C06_write_key_offer_is_C16_write_key
+             entry_ok = FitsWf.aux_entry_ok, the auxiliary conjunct of wf_table'
+             reloaded = FitsWf.aux_reloaded value: what table_eq_upto_padding (the conclusion of C06_roundtrip) says a reader returns *)
+          let k = unhex src and v = unhex dst in
+          let o = match write_key_offer k v with Stored -> "Stored" | RefusedReserved -> "RefusedReserved"
+                  | RefusedLongKey -> "RefusedLongKey" | RefusedTooLong -> "RefusedTooLong" in
+          Printf.printf "%s offer=%s entry_ok=%d reloaded=%s ok\n%!" id o (if aux_entry_ok (k, v) then 1 else 0) (hexstr (aux_reloaded v))
         end else if mode = "decode" then begin
           let b = bytes_of_file src in
           let oc = open_out dst in
